@@ -641,6 +641,23 @@ fn complete_parent(i: usize, n: usize) -> usize {
     }
 }
 
+/// Returns the parent index of a node at index `i` in a complete binary tree of size `n`, or
+/// `None` if `i` has no ancestor inside the tree (`i` is the root, or lies outside the tree).
+///
+/// This is the non-panicking form of [`complete_parent`] for walking audit paths that come
+/// from untrusted sources and might contain more segments than the tree is deep.
+fn checked_complete_parent(i: usize, n: usize) -> Option<usize> {
+    let mut i = i;
+    loop {
+        // `perfect_parent(i)`, but giving up instead of panicking on `usize::MAX`
+        let zero = last_set_bit(i.checked_add(1)?);
+        i = (zero | i) & !(zero << 1);
+        if i < n {
+            break Some(i);
+        }
+    }
+}
+
 /// Returns the left child index of a node at index `p` of a complete binary tree.
 ///
 /// Note: `complete binary tree` here refers to a tree in which all left subtrees
@@ -699,7 +716,10 @@ fn is_branch(i: usize) -> bool {
 /// `j` is said to fall inside the tree if `j < n`.
 #[inline]
 fn is_leaf_index_in_tree(i: usize, n: usize) -> bool {
-    let j = leaf_index_to_tree_index(i);
+    // a leaf index whose tree index does not fit `usize` cannot be inside any tree
+    let Some(j) = i.checked_mul(2) else {
+        return false;
+    };
     is_tree_index_in_tree(j, n)
 }
 
